@@ -196,6 +196,41 @@ def container_element_edits(base):
     return out
 
 
+def small_chain_jobs(k, idx):
+    """Histories over a small model of its own (cheap to compile, so every listed version gets its own generated reader): a
+    memcpy-able record that changes in the first release only, used as scalar / vector / fixed vector / stream item; a record that
+    the protocol reaches only as the type argument of a generic, and that is the only thing that changes."""
+    from am import P, N, TP, Opt, Vec, Stream, Record, Protocol, Package
+
+    def model(pt_fields, pixel_fields, extra_steps=(), image_fields=None):
+        defs = [Record("Pt", pt_fields), Record("Pixel", pixel_fields),
+                Record("Image", image_fields or [("data", Vec(TP("T"))), ("w", P("int32"))], tparams=("T",))]
+        steps = [("pt", N("Pt")), ("pts", Vec(N("Pt"))), ("ptf", Vec(N("Pt"), 2)), ("ptstream", Stream(N("Pt"))), ("img", N("Image", N("Pixel"))),
+                 ("imgs", Stream(N("Image", N("Pixel")))), ("opx", Opt(N("Image", N("Pixel")))), ("last", P("int32"))] + list(extra_steps)
+        return Package("Evo", defs=defs, protocols=[Protocol("Proto", steps)], dirname="evo")
+    x, y = ("x", P("float32")), ("y", P("float32"))
+    r, g, a = ("r", P("float32")), ("g", P("float32")), ("alpha", Opt(P("float32")))
+    added = [("added", Opt(P("int32")))]
+    s0 = model([x], [r, g])
+    jobs = []
+
+    def job(label, cur, olds):
+        jobs.append(("small:" + label, "chain", cur, [(lbl, o, None) for lbl, o in olds], k, "s%d" % next(idx)))
+    s1 = model([x, y], [r, g])
+    s2 = model([x, y], [r, g], added)
+    job("memcpy-record-changed-in-first-release-only/oldest-first", s2, [("v0", s0), ("v1", s1)])
+    job("memcpy-record-changed-in-first-release-only/newest-first", s2, [("v1", s1), ("v0", s0)])
+    job("memcpy-record-changed-in-last-release-only", s2, [("v0", model([x, y], [r, g])), ("v1", model([x], [r, g], added))])
+    job("memcpy-record-field-added", s1, [("v0", s0)])
+    job("memcpy-record-fields-reordered-then-step-added", model([y, x], [r, g], added), [("v0", model([x, y], [r, g])), ("v1", model([y, x], [r, g]))])
+    job("generic-argument-record-gains-optional-field", model([x], [r, g, a]), [("v0", s0)])
+    job("generic-argument-record-loses-optional-field", s0, [("v0", model([x], [r, g, a]))])
+    job("generic-argument-record-reordered", model([x], [g, r]), [("v0", s0)])
+    job("generic-argument-record-changed-then-other-record-changed", model([x, y], [r, g, a]), [("v0", s0), ("v1", model([x], [r, g, a]))])
+    job("generic-definition-gains-optional-field", model([x], [r, g], image_fields=[("data", Vec(TP("T"))), ("w", P("int32")), ("note", Opt(P("string")))]), [("v0", s0)])
+    return jobs
+
+
 def run_edit(job):
     """job: (label, cls, new pkg, [(version label, old pkg, old Prepared)]) ; returns list of records for the main thread."""
     label, cls, newpkg, olds, k, tag = job
@@ -350,6 +385,7 @@ def main(tier):
                     chain_jobs.append(("chain-unchanged-release-first:%s>%s" % (lab1, lab2), "chain", p2, [("v2", copy.deepcopy(p2), None), ("v1", p1, mpr), ("v0", base, base_pr)], k, "c%d" % next(idx)))
                 if quick and len(seen2) >= 2:
                     break
+        chain_jobs += small_chain_jobs(k, idx)
         ch = list(pool.map(run_edit, chain_jobs))
         results += [("chain", r) for r in ch]
         for mpr in mid_prs:
